@@ -137,7 +137,13 @@ def run_history(W, rec, hist):
             if w.string_sanitization_mode != op[1]:
                 rec.violation("mode-not-kept", "string_sanitization_mode reads back %r after assigning %r" % (w.string_sanitization_mode, op[1]), {"history": hist[: i + 1]})
             continue
-        before = bytes(w.to_bytearray())
+        snap = w.to_bytearray()
+        before = bytes(snap)
+        if i % 3 == 1:
+            # the copy belongs to the caller: overwriting and growing it must not reach the writer
+            snap[:] = b"\x5a" * len(snap)
+            snap.extend(b"zz")
+            rec.count("to_bytearray-copies-scribbled")
         mbefore = len(m.data)
         try:
             getattr(m, op[0])(*op[1:])
@@ -145,7 +151,14 @@ def run_history(W, rec, hist):
         except ValueError:
             valid = False
         try:
-            r = getattr(w, op[0])(*op[1:])
+            if op[0] == "add_bytes" and i % 2:
+                # a caller-owned mutable argument, changed right after the call
+                arg = bytearray(op[1])
+                r = w.add_bytes(arg)
+                arg[:] = b"\xee" * len(arg)
+                arg.extend(b"q")
+            else:
+                r = getattr(w, op[0])(*op[1:])
             raised = None
         except Exception as ex:
             raised = ex
